@@ -12,16 +12,19 @@ class ElementDG(Element):
                               + elem.refdom.nfacets * elem.facet_dofs
                               + elem.refdom.nedges * elem.edge_dofs
                               + elem.interior_dofs)
+        # elem.dofnames lists the names in the order nodal, facet, edge,
+        # interior whereas the basis functions of a cell are ordered
+        # nodal, edge, facet, interior
         self.dofnames = (
             elem.refdom.nnodes * elem.dofnames[:elem.nodal_dofs]
-            + elem.refdom.nfacets * elem.dofnames[slice(elem.nodal_dofs,
-                                                        (elem.nodal_dofs
-                                                         + elem.facet_dofs))]
             + elem.refdom.nedges * elem.dofnames[slice((elem.nodal_dofs
                                                         + elem.facet_dofs),
                                                        (elem.nodal_dofs
                                                         + elem.facet_dofs
                                                         + elem.edge_dofs))]
+            + elem.refdom.nfacets * elem.dofnames[slice(elem.nodal_dofs,
+                                                        (elem.nodal_dofs
+                                                         + elem.facet_dofs))]
             + elem.dofnames[(elem.nodal_dofs
                              + elem.facet_dofs
                              + elem.edge_dofs):]
